@@ -298,7 +298,7 @@ def specs(tier):
                   inputs=dict(ev_in, start=("int", 0, 2), epochs=("int", 0, 3), stop_at=("int", 0, 0)), pre=["p2 == 1", "p3 == p1"]))
     sv_in = dict(start=("int", 0, 3), epochs=("int", 0, 3), period=("int", 1, 3), stop_at=("int", 0, 3))
     combos = [("complex", "dict", False, True), ("complex", "callable", False, True), ("positive", "none", False, False), ("positive", "dict", True, True),
-              ("complex", "none", False, True)]
+              ("complex", "none", False, True), ("positive", "none", True, True)]
     if tier != "quick":
         combos += [("mixed", "dict", False, True), ("mixed", "callable", True, False), ("positive", "callable", False, True), ("complex", "dict", True, False)]
     for kind, md, only, init in combos:
